@@ -16,9 +16,9 @@ def configs(ctx):
             base = sorted({2, 3, max(2, L - 1), L, L + 1, 2 * L + 1, 2 * L + 2})
             if ctx.quick:
                 base = sorted({2, 3, max(2, L - 1), L + 1, 2 * L + 2})
-            for H in base:
-                for W in base:
-                    if ctx.quick and (H * 3 + W) % 2:
+            for ih, H in enumerate(base):
+                for iw, W in enumerate(base):
+                    if ctx.quick and (ih + iw) % 2:       # by position, so that every (H, W) parity class stays in
                         continue
                     items.append(('afb-nonsep', mode, 2, L, L, H, W))
                     items.append(('sfb-nonsep', mode, 2, L, L, H, W))
